@@ -365,8 +365,16 @@ namespace link_layer {
         struct no_phy_update_request_impl
         {
             template < class LL >
-            bool handle_phy_request( std::uint8_t, std::uint8_t, const write_buffer&, read_buffer, LL&, bool& )
+            bool handle_phy_request( std::uint8_t opcode, std::uint8_t, const write_buffer&, read_buffer, LL& link_layer, bool& )
             {
+                // phy_update_request() is available without hardware support; the central's answer can not be followed
+                // (it gets LL_UNKNOWN_RSP), but it is the answer to the procedure this side started
+                if ( opcode == LL::LL_PHY_UPDATE_IND && link_layer.phy_update_request_running_ )
+                {
+                    link_layer.phy_update_request_running_ = false;
+                    link_layer.procedure_timeout_          = delta_time();
+                }
+
                 return false;
             }
 
